@@ -33,6 +33,7 @@ def main():
                 print(json.dumps(res)); continue
             suite = sh('cd %s && timeout 900 /venv/bin/python -m pytest -q -p no:cacheprovider 2>&1 | tail -1' % wt)
             r1 = sh('PYTHONPATH=%s /venv/bin/python %s' % (wt, demo), timeout=600)
+            sh("pkill -f '%s/supp/server.py'" % wt)      # servers left behind by the suite / the demo on the changed tree
             res.update(demo_without=r0.returncode, demo_with=r1.returncode, suite=suite.stdout.strip(),
                        demo_output=(r1.stdout + r1.stderr)[-400:])
             import re
